@@ -296,10 +296,12 @@ struct Driver<'a, RK: RadioKind, C: Probe> {
     baseline_failed: Vec<bool>,
     failed: Vec<bool>,
     /// what the chip's sync word registers held right after the last successful
-    /// set_lora_sync_word (None: never set, or the last attempt failed)
+    /// set_lora_sync_word, or by construction while it was never set (a failed attempt changes nothing)
     sync_expected: Option<u16>,
     /// the word set_lora_sync_word is called with in this plan
     sync_word: u16,
+    /// configuration losses the chip had seen when set_lora_sync_word was last attempted
+    sync_mark: u32,
 }
 
 impl<'a, RK: RadioKind, C: Probe> Driver<'a, RK, C> {
@@ -386,7 +388,14 @@ impl<'a, RK: RadioKind, C: Probe> Driver<'a, RK, C> {
             self.failed_init = !matches!(res, Res::Ok);
         }
         if call == Call::SetSync {
-            self.sync_expected = if matches!(res, Res::Ok) { Some(sh.chip.sync_value()) } else { None };
+            // (a refused or failed request is not in force: the word that was in force before stays the
+            // one a later cold start has to program)
+            if matches!(res, Res::Ok) {
+                self.sync_expected = Some(sh.chip.sync_value());
+            }
+            // what the chip holds right after an attempt (also a failed one that got as far as the
+            // registers) is not 'programmed again': only a loss after this point counts
+            self.sync_mark = sh.chip.losses();
         }
         self.failed.push(res.failed());
         let tainted = self.failed_init && call != Call::Init;
@@ -490,7 +499,7 @@ impl<'a, RK: RadioKind, C: Probe> Driver<'a, RK, C> {
             // "programmed again" means with what the application last asked for: after a loss the
             // sync word on the chip must be the one set_lora_sync_word left there
             if let Some(exp) = self.sync_expected {
-                if os.missing & item::SYNC == 0 && os.sync != exp && call.in_statement() && call != Call::Listen && os.kind != OpKind::Cad && !tainted && sh.chip.losses() > self.losses_base {
+                if os.missing & item::SYNC == 0 && os.sync != exp && call.in_statement() && call != Call::Listen && os.kind != OpKind::Cad && !tainted && sh.chip.losses() > self.losses_base.max(self.sync_mark) {
                     self.col.event("alarm_c");
                     self.found.push(Found {
                         sig: format!("C14|lora|c-sync-word-value|{}|after-{}", fam, sh.chip.last_loss()),
@@ -705,7 +714,7 @@ impl<'a> Visitor for RunPlan<'a> {
             sh.also_next_spi = plan.double;
         }
         let losses_base = bus.borrow().chip.losses();
-        let mut d = Driver { var, lora, bus: bus.clone(), mdl, tx_pkt, rx_pkt, rxbuf: [0; 255], col, found: vec![], log: vec![], losses_base, failed_init: false, baseline_failed: plan.baseline_failed.clone(), failed: vec![], sync_expected: None, sync_word: if plan.ovar % 2 == 0 { 0x1424 } else { 0x1F38 } };
+        let mut d = Driver { var, lora, bus: bus.clone(), mdl, tx_pkt, rx_pkt, rxbuf: [0; 255], col, found: vec![], log: vec![], losses_base, failed_init: false, baseline_failed: plan.baseline_failed.clone(), failed: vec![], sync_expected: Some(bus.borrow().chip.sync_value()), sync_word: if plan.ovar % 2 == 0 { 0x1424 } else { 0x1F38 }, sync_mark: 0 };
         let plan_json = || {
             json!({
                 "chip": plan.var.name(),
